@@ -94,7 +94,7 @@ class EvenAsphere(NewtonRaphsonGeometry):
             dict: The dictionary representation of the geometry.
         """
         data = super().to_dict()
-        data["coefficients"] = self.c
+        data["coefficients"] = [float(c) for c in self.c]
 
         return data
 
